@@ -6,7 +6,7 @@ from hypothesis import strategies as st
 from parso.python.tokenize import tokenize
 from parso.utils import parse_version_string
 
-from ..common import BOM, ZERO_WIDTH, advance, crash_signature, digest, grammar, is_zero_width, leaves, short
+from ..common import BOM, ZERO_WIDTH, case_int, disturb, advance, crash_signature, digest, grammar, is_zero_width, leaves, short
 from ..engine import Outcome, Prop
 from ..gen import text as T
 
@@ -24,6 +24,8 @@ def check_tokens(code, v):
         for _ in range(9):
             next(it)
         del it
+        if len(code) % 2:
+            disturb(grammar(v), case_int(code, v))      # more kinds of unfinished earlier calls (strict raise, aborted parse ...)
         toks = list(tokenize(code, version_info=vi))
     except RecursionError:
         raise
